@@ -124,12 +124,23 @@ std::string Logic::disambiguateName(std::string const & protectedName, SRef sort
     }
 }
 
+namespace {
+// Names that consist of simple-symbol characters only but that the SMT-LIB front end does not read as a symbol:
+// the reserved words `!`, `_`, `DECIMAL`, `NUMERAL`, `STRING` and everything that starts like a negative number
+// (the lexer reads `-1`, `-1/2`, `-2.5` as numeric constants)
+bool isReadAsNonSymbol(std::string const & name) {
+    if (name == "!" or name == "_" or name == "DECIMAL" or name == "NUMERAL" or name == "STRING") { return true; }
+    return name.size() >= 2 and name[0] == '-' and std::isdigit(static_cast<unsigned char>(name[1]));
+}
+} // namespace
+
 //
 // Quote the name if it contains illegal characters
 //
 std::string Logic::protectName(std::string const & name, bool isInterpreted) const {
     assert(not name.empty());
-    if (not isInterpreted and (hasQuotableChars(name) or std::isdigit(name[0]) or isReservedWord(name))) {
+    if (not isInterpreted and
+        (hasQuotableChars(name) or std::isdigit(name[0]) or isReservedWord(name) or isReadAsNonSymbol(name))) {
         return '|' + name + '|';
     }
     return name;
